@@ -7,6 +7,9 @@
      {"ev":"Submit","c":{path,kind,ver,node,sender,val,alt,ai,as}}        a single-element call, the case as received
                                                                            from the model; the calls of one schedule
                                                                            carry the same signature bytes (SameSig)
+                                                                           or are a fork sequence (ForkSeq: fresh
+                                                                           objects of one kind / validator / share
+                                                                           placed in different fork versions)
      {"ev":"SubmitBatch","c":{...,"pat":{vs,cs,ss,bad}}}                  one call with 2..3 elements
      {"ev":"Deliver","k":entry of the submission (0: not one of them),"val":validator label of the set key,
                      "idx":ShareIdx of the delivered ParSignedData,"dt":duty type the subscriber was called with}
@@ -27,7 +30,7 @@ IsCase(c) == /\ c.path \in {"vc", "peer"} /\ c.kind \in KindsOn(c.path) /\ IsBas
 IsBatchCase(b) == /\ b.path \in {"vc", "peer"} /\ b.kind \in BatchKindsOn(b.path) /\ IsBase(b)
                   /\ b.alt = "batch" /\ b.pat \in PatternsOf(b.path, b.kind)
 TReset == IsEvent("Reset") /\ l = 1 /\ Ev.N = N /\ Ev.V = V /\ UNCHANGED vars
-TSubmit == /\ IsEvent("Submit") /\ IsCase(Ev.c) /\ (IF calls = <<>> THEN TRUE ELSE SameSig(calls[1], Ev.c))
+TSubmit == /\ IsEvent("Submit") /\ IsCase(Ev.c) /\ (IF calls = <<>> THEN TRUE ELSE (SameSig(calls[1], Ev.c) \/ ForkSeq(calls[1], Ev.c)))
            /\ Submit(Ev.c)
 TSubmitBatch == IsEvent("SubmitBatch") /\ IsBatchCase(Ev.c) /\ SubmitBatch(Ev.c)
 TDeliver == /\ IsEvent("Deliver") /\ Ev.k \in 1..3 /\ Deliver(Ev.k)
